@@ -67,10 +67,16 @@ fn shape_for(i: u64, rng: &mut Rng) -> Shape {
         sh.aux = Some(AuxShape { cols: (i as usize / 6) % w.max(1), rands: 1, lagrange: true });
         sh.exemptions = sh.exemptions.min(sh.max_exemptions()).max(1);
     }
-    // more auxiliary than main transition constraints
+    // more auxiliary than main transition constraints; every second time also more auxiliary than
+    // main assertions
     if i % 6 == 3 {
         let w = sh.width();
-        sh.aux = Some(AuxShape { cols: w + 1 + (i as usize / 6) % 2, rands: 1 + (i as usize / 12) % 2, lagrange: false });
+        let mut cols = w + 1 + (i as usize / 6) % 2;
+        if i % 12 == 9 {
+            sh.asserts.truncate(1 + (i as usize / 12) % 2);
+            cols = cols.max(sh.asserts.len() + 1 + (i as usize / 24) % 2);
+        }
+        sh.aux = Some(AuxShape { cols, rands: (i as usize / 12) % 3, lagrange: false });
         sh.exemptions = sh.exemptions.min(sh.max_exemptions()).max(1);
     }
     // trace metadata at the element-chunk boundaries of the three fields
@@ -225,6 +231,30 @@ fn case(i: u64, rng: &mut Rng, st: &mut State, full: bool) {
             }
         }
     }
+    // (1b') a prover that rescales a whole auxiliary column: all transition constraints still hold,
+    // only the boundary assertion on that column is violated
+    if let Some(a) = &shape.aux {
+        for c in 0..a.cols {
+            set_aux_rescaling(Some(c));
+            let proved = stark::prove(&honest, false);
+            set_aux_rescaling(None);
+            st.evals += 1;
+            let more_aux_assertions = a.cols > shape.asserts.len();
+            match proved {
+                Proved::Ok(p) => match stark::verify_proof(fd, hs, &shape, &values, p, &acc, false) {
+                    Ok(Ok(())) => st.violation(format!("violated-aux-assertion-accepted:{}", if more_aux_assertions { "more-aux-than-main-assertions" } else { "aux-assertion" }), describe(c, 0, "whole auxiliary column rescaled by the prover", format!("aux column {c} of {}, main assertions {}", a.cols, shape.asserts.len()))),
+                    Ok(Err(_)) => {
+                        st.count("aux_assertion.rejected");
+                        if more_aux_assertions {
+                            st.count("aux_assertion.rejected_with_more_aux_than_main_assertions");
+                        }
+                    },
+                    Err(pi) => st.violation(format!("verify-panic:{}", pi.sig), describe(c, 0, "verifier panic", pi.msg)),
+                },
+                _ => st.count("aux_assertion.no_proof_produced"),
+            }
+        }
+    }
     // (1c) a prover that commits to (and opens) the extension of another main trace than the one it
     // proves: column c of the committed trace differs from the proven one in one cell, everything
     // else in the proof (polynomials, constraint evaluations, out-of-domain frame, DEEP composition)
@@ -355,7 +385,7 @@ fn main() {
     let full = !run.quick();
     let n = run.size(240, 12_000);
     run.par("shapes", n, |i, rng, st| case(i, rng, st, full));
-    let mut require = vec![("shapes.every_cell_corrupted".to_string(), 10), ("still_valid.accepted".to_string(), 20), ("perturbed_statements".to_string(), 100), ("aux.rejected".to_string(), 50), ("aux.rejected_constraint_index_ge_main_constraints".to_string(), 10), ("swap.rejected".to_string(), 30), ("swap.rejected_on_lagrange_kernel_air".to_string(), 5)];
+    let mut require = vec![("shapes.every_cell_corrupted".to_string(), 10), ("still_valid.accepted".to_string(), 20), ("perturbed_statements".to_string(), 100), ("aux.rejected".to_string(), 50), ("aux.rejected_constraint_index_ge_main_constraints".to_string(), 10), ("swap.rejected".to_string(), 30), ("aux_assertion.rejected".to_string(), 30), ("aux_assertion.rejected_with_more_aux_than_main_assertions".to_string(), 5), ("swap.rejected_on_lagrange_kernel_air".to_string(), 5)];
     for k in ["first-step", "last-enforced-row", "row-before-exemption-boundary", "last-step", "asserted-single", "asserted-periodic", "asserted-sequence", "interior", "perturbed_assertion_value", "perturbed_exemptions", "perturbed_rule-constant", "relabelled_trace-metadata-byte", "relabelled_proof-option"] {
         require.push((format!("rejected.{k}"), 5));
     }
@@ -363,7 +393,7 @@ fn main() {
         require.push((format!("shapes.{f:?}"), 5));
     }
     run.finish(Finish {
-        rule: "per shape of the C01 family (n = 8..64, 1..7 columns, all 12 field x hasher combinations, three extension degrees): every (column, step) cell (all cells while n*width <= 160 in quick, always in thorough; boundary + asserted + sampled cells otherwise) is corrupted by +1 or a random value and proven with the unchanged public inputs; the reference validity predicate decides the expected verdict (invalid -> rejected, still valid -> accepted); rejections are counted per step class (first step, row before / at / after the exemption boundary, last step, asserted cells per assertion kind, interior); a prover that corrupts one cell of the auxiliary segment (all cells of small segments; shapes with more auxiliary than main constraints forced every sixth case) must be rejected exactly when the cell touches an enforced step; a prover that commits to and opens the extension of another main trace than the one it proves (one column differing in one cell; only when blowup^queries >= 2^40; Lagrange-kernel computations forced every sixth case) must be rejected for every column; then the honest proof is verified against perturbed assertion values and perturbed computation descriptions (exemptions, rule constant, assertion step, periodic value), and the proof itself is relabelled (every byte of its trace metadata - lengths at the element-chunk boundaries -, each proof option) and must then be rejected. distinct = distinct (shape instance, corrupted cell, delta)".into(),
+        rule: "per shape of the C01 family (n = 8..64, 1..7 columns, all 12 field x hasher combinations, three extension degrees): every (column, step) cell (all cells while n*width <= 160 in quick, always in thorough; boundary + asserted + sampled cells otherwise) is corrupted by +1 or a random value and proven with the unchanged public inputs; the reference validity predicate decides the expected verdict (invalid -> rejected, still valid -> accepted); rejections are counted per step class (first step, row before / at / after the exemption boundary, last step, asserted cells per assertion kind, interior); a prover that corrupts one cell of the auxiliary segment (all cells of small segments; shapes with more auxiliary than main constraints forced every sixth case) must be rejected exactly when the cell touches an enforced step; a prover that rescales a whole auxiliary column (only the boundary assertion on it fails; shapes with more auxiliary than main assertions forced) must be rejected; a prover that commits to and opens the extension of another main trace than the one it proves (one column differing in one cell; only when blowup^queries >= 2^40; Lagrange-kernel computations forced every sixth case) must be rejected for every column; then the honest proof is verified against perturbed assertion values and perturbed computation descriptions (exemptions, rule constant, assertion step, periodic value), and the proof itself is relabelled (every byte of its trace metadata - lengths at the element-chunk boundaries -, each proof option) and must then be rejected. distinct = distinct (shape instance, corrupted cell, delta)".into(),
         assumptions: vec![
             "a prover panic/error on an invalid trace counts as 'no proof' (vacuous)".into(),
             "rejection happens at the out-of-domain check with probability >= 1 - deg/|F| >= 1 - 2^-45: treated as deterministic".into(),
